@@ -16,6 +16,8 @@ def run(run, model):
     run.do(msg.args_listed, model, "C20.filter-args")
     run.do(msg.hide_placeholders, model)
     run.do(msg.no_nondeterminism, model)
+    from . import fwd
+    run.do(fwd.forwarding, model, "C20.a-repr-forwarded", ("a_repr",))
     run.minimum("C20.sorted", 3)
     run.minimum("C20.a-repr", 8)
     run.minimum("C20.filter", 5)
